@@ -203,7 +203,8 @@ CHECKS = {
         'are right while nothing changes. Refuted (known findings): cross join with an empty operand, history independence of the '
         'cached reader (stale after mutation / restart, shared across connections). Not a theorem: that SQLAlchemy + sqlite/duckdb '
         'evaluate the emitted SQL as the denotation says - that is the differential part (both engines, an independent Python '
-        'evaluator and the Coq denotation must agree on every generated statement x content). lazy/monolite feeds, floats, division, '
+        'evaluator and the Coq denotation must agree on every generated statement x content). Read histories through inline-backed '
+        'monolite feeds (the process-global lazy backend) are judged by the oracle only (known finding); floats, division, '
         'avg, window functions and NULL ordering keys are outside the model.',
         BASE_NOTE + 'SQLAlchemy 2.0, sqlite 3.40, duckdb 1.5, pandas (reader level) execute the parser output.',
         'DESIGN.md section 5 C06',
